@@ -336,6 +336,102 @@ let () =
     | Some t -> ps (ser_etree t); pb (well_grouped tbl t)
     | None -> ps "none")
 
+
+(* ---- semantic analysis model (Gen/Analyze.v) ---- *)
+let hexstr c : coq_string =
+  let w = next c in
+  if w = "-" then EmptyString
+  else begin
+    let n = Stdlib.String.length w / 2 in
+    let b = Bytes.create n in
+    for i = 0 to n - 1 do
+      Bytes.set b i (Char.chr (int_of_string ("0x" ^ Stdlib.String.sub w (2 * i) 2)))
+    done;
+    coq_of_string (Bytes.to_string b)
+  end
+
+let card_of_int = function
+  | 0 -> COne | 1 -> CZeroOrOne | 2 -> CZeroOrMore | 3 -> CZeroOrMoreNG | 4 -> COneOrMore | _ -> COneOrMoreNG
+
+let rec a_lterm c =
+  match int c with
+  | 0 -> LLit (list z c)
+  | 1 -> LRef (hexstr c)
+  | 2 -> LClass (list range c)
+  | _ -> LGroup (a_alts c)
+and a_alts c = list (fun c -> list (fun c -> let t = a_lterm c in let k = card_of_int (int c) in (t, k)) c) c
+
+let a_action c =
+  match int c with
+  | 0 -> ADiscard | 1 -> APush (hexstr c) | 2 -> APop | _ -> AEmit (hexstr c)
+
+let rec a_pterm c =
+  match int c with
+  | 0 -> PName (hexstr c)
+  | 1 -> PAlias (hexstr c)
+  | 2 -> PError
+  | 3 -> let k = (match int c with 0 -> PZeroOrMore | 1 -> PZeroOrMoreF | 2 -> POneOrMore | _ -> PZeroOrOne) in
+         let t = a_pterm c in PCard (k, t)
+  | _ -> let e = a_pterm c in let sp = a_pterm c in let o = bool c in PList (e, sp, o)
+
+let rec a_decl c =
+  match int c with
+  | 0 -> let id = nat c in let n = hexstr c in let e = a_alts c in let a = list a_action c in DToken (id, n, e, a)
+  | 1 -> let id = nat c in let e = a_alts c in let a = list a_action c in DFrag (id, e, a)
+  | 2 -> let id = nat c in let n = hexstr c in let e = a_alts c in DMacro (id, n, e)
+  | 3 -> let id = nat c in let ns = list hexstr c in DExternal (id, ns)
+  | 4 -> let id = nat c in let n = hexstr c in let b = list a_decl c in DMode0 (id, n, b)
+  | _ -> let id = nat c in let st = bool c in let n = hexstr c in
+         let prods = list (fun c -> list a_pterm c) c in DRule (id, st, n, prods)
+
+let dkind_to_int = function
+  | KRedefined -> 0 | KBadName -> 1 | KReservedName -> 2 | KUndefined -> 3 | KNotAToken -> 4 | KNotAMacro -> 5
+  | KNotRuleOrToken -> 6 | KUnknownAlias -> 7 | KAmbiguousAlias -> 8 | KUndefinedMode -> 9 | KStartRedefined -> 10
+  | KStartUndefined -> 11 | KEmptyLiteral -> 12 | KTokenDiscard -> 13 | KTokenEmit -> 14 | KFragTwoDiscard -> 15
+  | KFragTwoEmit -> 16 | KFragDiscardAndEmit -> 17 | KMacroCycle -> 18 | KListEntryNotSimple -> 19
+  | KListSepNotSimple -> 20 | KOther -> 21 | KBadRange -> 22
+
+let () =
+  reg "analyze" (fun c ->
+    let sp = list (fun c -> list a_decl c) c in
+    pb (well_formed sp); pb (well_formed_weak sp);
+    plist (fun (k, oi) -> pi (dkind_to_int k); (match oi with Some i -> pn i | None -> pi (-1))) (analyze sp))
+
+
+(* ---- action binding model (Gen/Binding.v) ---- *)
+let () =
+  reg "binding" (fun c ->
+    let n = int c in
+    let mat c = Array.init n (fun _ -> Array.init n (fun _ -> bool c)) in
+    let ident = mat c in
+    let assg = mat c in
+    let slice = Array.init n (fun _ -> int c) in
+    let isif = Array.init n (fun _ -> bool c) in
+    let impl = mat c in
+    let g2 m a b = let i = int_of_nat a and j = int_of_nat b in i < n && j < n && m.(i).(j) in
+    let o = { identical = g2 ident; assignable = g2 assg;
+              slice_of = (fun a -> let i = int_of_nat a in if i < n then nat_of_int slice.(i) else nat_of_int n);
+              is_interface = (fun a -> let i = int_of_nat a in i < n && isif.(i));
+              implements = g2 impl } in
+    let tok = nat c in let err = nat c in
+    let kind_of = function 0 -> NotGenerated | 1 -> SPrime | 2 -> ZeroOrMore | 3 -> ZeroOrMoreF | 4 -> OneOrMore
+                         | 5 -> OneOrMoreF | 6 -> ZeroOrOne | _ -> ListK in
+    let rules = list (fun c -> let nm = hexstr c in let k = kind_of (int c) in let ps = list nat c in
+                        { br_name = nm; br_kind = k; br_prods = ps }) c in
+    let prods = list (fun c -> let r = nat c in let ts = list (fun c -> let b = bool c in let i = nat c in (b, i)) c in
+                        { bp_rule = r; bp_terms = ts }) c in
+    let ms = list (fun c -> let id = nat c in let nm = hexstr c in let ps = list nat c in let rs = list nat c in
+                     { m_id = id; m_name = nm; m_params = ps; m_results = rs }) c in
+    match assign_actions o tok err rules prods ms with
+    | BOk (b, _) -> ps "ok"; plist (fun (p, m) -> pn p; pn m) b
+    | BErr ds -> ps "err"; plist (fun d -> match d with
+        | DResultCount m -> pi 0; pn m | DReturnConflict m -> pi 1; pn m | DNoSuchRule m -> pi 2; pn m
+        | DRuleMissingMethod r -> pi 3; pn r | DNoMatch p -> pi 4; pn p | DMultipleMatch p -> pi 5; pn p
+        | DUnassigned m -> pi 6; pn m) ds
+    | BPanic _ -> ps "panic"
+    | BIllFormed -> ps "illformed"
+    | BFuel -> ps "fuel")
+
 let () =
   try
     while true do
